@@ -6,7 +6,7 @@ set -u
 V="$(cd "$(dirname "$0")/.." && pwd)"
 NAME="$1"; DIFF="$2"; DEMO="$3"; DDIR="$4"; shift 4
 export GOFLAGS=-mod=mod GOPROXY=off GOSUMDB=off GOTOOLCHAIN=local
-WT=/tmp/wt/verify-$NAME
+WT=/tmp/wt/verify-$NAME; mkdir -p /tmp/wt
 git -C /repo worktree remove --force "$WT" >/dev/null 2>&1
 git -C /repo worktree add -q "$WT" HEAD || exit 2
 OUT=/verif/seeded/$NAME; mkdir -p "$OUT"
